@@ -2,6 +2,8 @@ import Gql.Proofs.LexInvNumber
 import Gql.Proofs.LexInvString
 import Gql.Proofs.ParseWfType
 import Gql.Proofs.ValueRoundtrip
+import Gql.Proofs.C08LexPaired
+import Gql.Proofs.C08ValuePaired
 /-!
 C08, converse direction for the VALUE / CONST VALUE entry points (`parse_wf`): every tree
 `parse_value` / `parse_const_value` returns is the tree of a `Val` that is well formed up to verbatim
@@ -17,8 +19,9 @@ block-representable block strings. -/
 def LitOk (body : List Nat) (t : Token) : Prop :=
   (t.kind = .int → ∃ s, t.value = some s ∧ IsNum false s) ∧
   (t.kind = .float → ∃ s, t.value = some s ∧ IsNum true s) ∧
-  (t.kind = .string → ∃ s, t.value = some s ∧ ∀ c ∈ s, ChOk body c) ∧
-  (t.kind = .blockString → ∃ s, t.value = some s ∧ (∀ c ∈ s, ChOk body c) ∧ BlockRepresentable s)
+  (t.kind = .string → ∃ s, t.value = some s ∧ (∀ c ∈ s, ChOk body c) ∧ Pairs.Paired s) ∧
+  (t.kind = .blockString → ∃ s, t.value = some s ∧ (∀ c ∈ s, ChOk body c) ∧ BlockRepresentable s ∧
+    Pairs.Paired s)
 
 theorem LitOk.of_kind {body : List Nat} {t : Token} (h1 : t.kind ≠ .int) (h2 : t.kind ≠ .float)
     (h3 : t.kind ≠ .string) (h4 : t.kind ≠ .blockString) : LitOk body t :=
@@ -33,6 +36,13 @@ theorem punctKind_ne_string (c : Nat) : punctKind c ≠ some .string := by
 theorem punctKind_ne_blockString (c : Nat) : punctKind c ≠ some .blockString := by
   grind (splits := 20) [punctKind]
 
+theorem Post.and {α : Type} {P Q : α → Prop} {x : LexOut α} (h1 : Post P x) (h2 : Post Q x) :
+    Post (fun a => P a ∧ Q a) x := by
+  cases x with
+  | ok a => exact ⟨h1, h2⟩
+  | err e => trivial
+  | crash c => exact h1.elim
+
 theorem readNextToken_litOk (body : List Nat) (st : LexState) (pos : Nat) :
     Post (fun r => LitOk body r.1) (readNextToken body st pos) ∨ (readNextToken body st pos).isCrash := by
   by_cases hcr : (readNextToken body st pos).isCrash
@@ -45,8 +55,10 @@ theorem readNextToken_litOk (body : List Nat) (st : LexState) (pos : Nat) :
     have hnum := readNumber_isNum body st pos h
     have hstr := readString_chOk body st pos h
     have hblk := readBlockString_chOk body st pos h
+    have hstrP := readString_paired body st pos h
+    have hblkP := readBlockString_paired body st pos h
     revert hcr
-    generalize hcg : body[pos] = c at hc0 hnum hstr hblk ⊢
+    generalize hcg : body[pos] = c at hc0 hnum hstr hblk hstrP hblkP ⊢
     intro hcr
     refine Post.ite (fun hc => ?_) (fun hn1 => ?_)
     · rw [if_pos hc] at hcr; exact ih3 hcr
@@ -67,14 +79,20 @@ theorem readNextToken_litOk (body : List Nat) (st : LexState) (pos : Nat) :
         (by rw [ht.2]; decide)
     refine Post.ite (fun hq => ?_) (fun _ => ?_)
     · refine Post.ite (fun htr => ?_) (fun htr => ?_)
-      · refine (hblk hq htr).mono ?_
-        intro r hr
+      · refine ((hblk hq htr).and (hblkP hq htr)).mono ?_
+        intro r hrr
+        obtain ⟨hr, hrP⟩ := hrr
         exact ⟨fun hk => (by rw [hr.1] at hk; cases hk), fun hk => (by rw [hr.1] at hk; cases hk),
-          fun hk => (by rw [hr.1] at hk; cases hk), fun _ => hr.2⟩
-      · refine (hstr hq htr).bind ?_
-        intro t ht
+          fun hk => (by rw [hr.1] at hk; cases hk), fun _ => by
+            obtain ⟨sv, hsv, hch, hrep⟩ := hr.2
+            exact ⟨sv, hsv, hch, hrep, hrP sv hsv⟩⟩
+      · refine ((hstr hq htr).and (hstrP hq htr)).bind ?_
+        intro t htt
+        obtain ⟨ht, htP⟩ := htt
         exact ⟨fun hk => (by rw [ht.1] at hk; cases hk), fun hk => (by rw [ht.1] at hk; cases hk),
-          fun _ => ht.2, fun hk => (by rw [ht.1] at hk; cases hk)⟩
+          fun _ => by
+            obtain ⟨sv, hsv, hch⟩ := ht.2
+            exact ⟨sv, hsv, hch, htP sv hsv⟩, fun hk => (by rw [ht.1] at hk; cases hk)⟩
     cases hk : punctKind c with
     | some k =>
       simp only [post_pure]
@@ -294,7 +312,7 @@ mutual
     | var n => isConst = false ∧ validName n = true
     | int s => IsNum false s
     | float s => IsNum true s
-    | str s b => (∀ c ∈ s, ok c) ∧ (b = true → BlockRepresentable s)
+    | str s b => (∀ c ∈ s, ok c) ∧ (b = true → BlockRepresentable s) ∧ Pairs.Paired s
     | bool _ => True
     | null => True
     | enum n => validName n = true ∧ n ≠ S "true" ∧ n ≠ S "false" ∧ n ≠ S "null"
@@ -314,7 +332,7 @@ mutual
     | var n, h => h
     | int s, h => h
     | float s, h => h
-    | str s b, h => ⟨fun c hc => hok c (h.1 c hc), h.2⟩
+    | str s b, h => ⟨fun c hc => hok c (h.1 c hc), h.2.1⟩
     | bool _, _ => trivial
     | null, _ => trivial
     | enum n, h => h
@@ -336,6 +354,36 @@ mutual
     | (n, v) :: fs, h => by
       simp only [wfFields]; simp only [wfGFields] at h
       exact ⟨h.1, wf_of_wfG ok hok isConst v h.2.1, wfFields_of_wfG ok hok isConst fs h.2.2⟩
+end
+
+mutual
+  /-- What the parser builds is well formed in the sense of the round trip (`Val.wfP`). -/
+  theorem wfP_of_wfG (ok : Nat → Prop) (isConst : Bool) : ∀ v : Val, wfG ok isConst v → wfP isConst v
+    | var n, h => h
+    | int s, h => h
+    | float s, h => h
+    | str s b, h => ⟨h.2.2, h.2.1⟩
+    | bool _, _ => trivial
+    | null, _ => trivial
+    | enum n, h => h
+    | list vs, h => by
+      simp only [wfP]; simp only [wfG] at h
+      exact wfPList_of_wfG ok isConst vs h
+    | obj fs, h => by
+      simp only [wfP]; simp only [wfG] at h
+      exact wfPFields_of_wfG ok isConst fs h
+  theorem wfPList_of_wfG (ok : Nat → Prop) (isConst : Bool) :
+      ∀ vs : List Val, wfGList ok isConst vs → wfPList isConst vs
+    | [], _ => trivial
+    | v :: vs, h => by
+      simp only [wfPList]; simp only [wfGList] at h
+      exact ⟨wfP_of_wfG ok isConst v h.1, wfPList_of_wfG ok isConst vs h.2⟩
+  theorem wfPFields_of_wfG (ok : Nat → Prop) (isConst : Bool) :
+      ∀ fs : List (List Nat × Val), wfGFields ok isConst fs → wfPFields isConst fs
+    | [], _ => trivial
+    | (n, v) :: fs, h => by
+      simp only [wfPFields]; simp only [wfGFields] at h
+      exact ⟨h.1, wfP_of_wfG ok isConst v h.2.1, wfPFields_of_wfG ok isConst fs h.2.2⟩
 end
 
 end Val
@@ -446,8 +494,8 @@ theorem valueLit_vinv (body : List Nat) (cfg : Cfg) (c : Bool) : ∀ (n : Nat) (
         obtain ⟨u, s1, h1, h⟩ := bind_ok_inv (p := advanceLexer cfg) (f := fun _ => pure _) h
         simp only [pure_eq'] at h
         cases h
-        obtain ⟨sv, hsv, hch⟩ := hg.1.2.2.2.1 hk
-        exact ⟨advance_vinv body cfg s _ u h1 hg, .str sv false, ⟨hch, fun hb => by cases hb⟩,
+        obtain ⟨sv, hsv, hch, hpr⟩ := hg.1.2.2.2.1 hk
+        exact ⟨advance_vinv body cfg s _ u h1 hg, .str sv false, ⟨hch, (fun hb => by cases hb), hpr⟩,
           by simp [mk_str, tokValOrEmpty, hsv, Val.toAst, hk]⟩
       · -- block string
         rename_i hk
@@ -457,8 +505,8 @@ theorem valueLit_vinv (body : List Nat) (cfg : Cfg) (c : Bool) : ∀ (n : Nat) (
         obtain ⟨u, s1, h1, h⟩ := bind_ok_inv (p := advanceLexer cfg) (f := fun _ => pure _) h
         simp only [pure_eq'] at h
         cases h
-        obtain ⟨sv, hsv, hch, hrep⟩ := hg.1.2.2.2.2 hk
-        exact ⟨advance_vinv body cfg s _ u h1 hg, .str sv true, ⟨hch, fun _ => hrep⟩,
+        obtain ⟨sv, hsv, hch, hrep, hpr⟩ := hg.1.2.2.2.2 hk
+        exact ⟨advance_vinv body cfg s _ u h1 hg, .str sv true, ⟨hch, (fun _ => hrep), hpr⟩,
           by simp [mk_str, tokValOrEmpty, hsv, Val.toAst, hk]⟩
       · -- named values
         rename_i hk
@@ -583,5 +631,12 @@ theorem parseSource_value_wf (cfg : Cfg) (c : Bool) (src : List Nat) (hsrc : ∀
     ∃ v : Val, Val.wf c v ∧ d = v.toAst := by
   obtain ⟨v, hv, rfl⟩ := parseSource_value_wfG cfg c src d h
   exact ⟨v, Val.wf_of_wfG (ChOk src) (fun _ hc => ChOk.isScalar hsrc hc) c v hv, rfl⟩
+
+/-- `parse_wf` for values with no hypothesis on the source text: the tree is that of a `Val.wfP`. -/
+theorem parseSource_value_wfP (cfg : Cfg) (c : Bool) (src : List Nat) (d : Ast)
+    (h : parseSource (if c then .constValue else .value) cfg src = .ok d) :
+    ∃ v : Val, Val.wfP c v ∧ d = v.toAst := by
+  obtain ⟨v, hv, rfl⟩ := parseSource_value_wfG cfg c src d h
+  exact ⟨v, Val.wfP_of_wfG (ChOk src) c v hv, rfl⟩
 
 end Gql.Syntax
